@@ -17,6 +17,10 @@ C31  Loop transformations preserve behaviour where they apply.
      map, outside the loop over the nesting levels.  Applying one substitution per
      level inside that loop lets an earlier renaming capture a later one
      (j -> i followed by i -> j turns c(j,i) into c(j,j)).
+ R5  loop fission merges the promotion dimensions at every fission site: the
+     automatically detected variables are filtered against this pragma's explicit
+     list only (a variable known from an earlier site must be registered again so
+     that its dimensions are merged).
 Not decided: legality analysis (independence), body re-indexing arithmetic.
 """
 import ast
@@ -169,8 +173,41 @@ def run(ctx):
                            'the renaming map of the loop variables is never applied to the body', instance=inst))
     ctx.floor('R4', 'loop-variable renaming maps in do_loop_fusion', n4, 1)
 
+    # ---- R5 fission: promotion dimensions are merged at every fission site
+    ctx.rule('R5', 'do_loop_fission: the variables detected at a fission site are filtered against the explicit promote list of *this* pragma only, '
+                   'never against the dimensions accumulated from earlier sites')
+    fi = m.get_function(TL, 'do_loop_fission')
+    acc = set()
+    for a in ast.walk(fi.node):
+        if isinstance(a, ast.Assign) and isinstance(a.value, ast.Call) and X.call_name_of(a.value) == 'promotion_dimensions_from_loop_nest':
+            for t in a.targets:
+                acc |= {n.id for n in ast.walk(t) if isinstance(n, ast.Name)}
+    if not acc:
+        raise AnalysisError('do_loop_fission: accumulation through promotion_dimensions_from_loop_nest not found')
+    comps = [c for c in ast.walk(fi.node) if isinstance(c, (ast.ListComp, ast.GeneratorExp)) and 'read_after_write_vars' in ast.unparse(c.generators[0].iter)]
+    if not comps:
+        raise AnalysisError('do_loop_fission: automatic detection of promotion variables not found')
+    for c in comps:
+        names = {n.id for i_ in c.generators[0].ifs for n in ast.walk(i_) if isinstance(n, ast.Name)}
+        # follow one level of locals
+        for a in ast.walk(fi.node):
+            if isinstance(a, ast.Assign) and any(isinstance(t, ast.Name) and t.id in names for t in a.targets):
+                names |= {n.id for n in ast.walk(a.value) if isinstance(n, ast.Name)}
+        bad = sorted(names & acc)
+        if bad:
+            ctx.violation('R5', 'do_loop_fission:auto-promotion-skipped-for-known-variables', f'{TL}:{c.lineno}',
+                          f'the read-after-write variables of a fission site are filtered against `{bad[0]}`, the dimensions accumulated from '
+                          f'earlier sites: a temporary already registered by an earlier pragma is not passed to '
+                          f'promotion_dimensions_from_loop_nest again, its dimensions are not merged and it is under-promoted at the later site')
+        else:
+            ctx.judge('R5', 'auto-detected promotion variables are merged at every site', facts={'filter_names': sorted(names)})
+
 
 MUTANTS = [
+    Mutant('fission-skips-known-promotions', TL,
+           "                promote_vars += [v.name.lower() for v in read_after_write_vars(loops[-1].body, pragma)\n                                 if v.name.lower() not in promote_vars]",
+           "                known_vars = set(promote_vars) | set(promotion_vars_dims)\n                promote_vars += [v.name.lower() for v in read_after_write_vars(loops[-1].body, pragma)\n                                 if v.name.lower() not in known_vars]",
+           expect=('R5', 'auto-promotion-skipped')),
     Mutant('fusion-renames-level-by-level', TL,
            "                var_map = {}\n                for loop_variable, fusion_variable in zip(variables, fusion_variables):\n                    if loop_variable != fusion_variable:\n                        var_map.update({var: fusion_variable for var in FindVariables().visit(body)\n                                        if var.name.lower() == loop_variable.name})\n                if var_map:\n                    body = SubstituteExpressions(var_map).visit(body)\n",
            "                for loop_variable, fusion_variable in zip(variables, fusion_variables):\n                    if loop_variable != fusion_variable:\n                        var_map = {var: fusion_variable for var in FindVariables().visit(body)\n                                   if var.name.lower() == loop_variable.name}\n                        body = SubstituteExpressions(var_map).visit(body)\n",
